@@ -40,12 +40,25 @@ var (
 	rcMsgs map[string]string // kind/signer -> encoded message
 )
 
+var (
+	idpNextOnce sync.Once
+	idpNextKP   *idp.KeyPair
+)
+
+// idpNext: the IdP's next signing certificate, valid from clock position 12 (T0 + 6 s) on.
+func idpNext() *idp.KeyPair {
+	idpNextOnce.Do(func() {
+		idpNextKP = idp.Cert(idp.RSAKey("idpN"), "idp-next", world.T0.Add(6*time.Second), world.T0.Add(24*time.Hour))
+	})
+	return idpNextKP
+}
+
 func reconfMessages() map[string]string {
 	rcOnce.Do(func() {
 		w := world.Get()
 		rcMsgs = map[string]string{}
 		spk := spWindowCert()
-		for name, kp := range map[string]*idp.KeyPair{"A": w.IdpA, "B": w.IdpB} {
+		for name, kp := range map[string]*idp.KeyPair{"A": w.IdpA, "B": w.IdpB, "N": idpNext()} {
 			b := idp.NewBuilder(idp.Layout{Prefix: 0}, 21)
 			sig := idp.DefaultSig(kp.Key, kp.DER)
 			// sso: Response signed at the root
@@ -88,7 +101,10 @@ func (Reconf) Run(c *orch.Case) *orch.Outcome {
 	sp.ValidateEncryptionCert = true
 	setStore := func(s string) {
 		var roots []*x509.Certificate
-		if s == "A" || s == "AB" {
+		if s == "NA" {
+			roots = append(roots, idpNext().Cert) // the not-yet-valid successor is listed first
+		}
+		if s == "A" || s == "AB" || s == "NA" {
 			roots = append(roots, w.IdpA.Cert)
 		}
 		if s == "B" || s == "AB" {
@@ -97,7 +113,7 @@ func (Reconf) Run(c *orch.Case) *orch.Outcome {
 		sp.IDPCertificateStore = &dsig.MemoryX509CertificateStore{Roots: roots}
 	}
 	setClock := func(t int) { sp.Clock = dsig.NewFakeClockAt(world.T0.Add(time.Duration(t) * 500 * time.Millisecond)) }
-	setStore("A")
+	setStore("NA")
 	setClock(8)
 	o := &rcObs{Steps: []string{}}
 	for _, op := range in.H {
